@@ -2166,6 +2166,7 @@ class ArrayWriter:
     def set_defaults(self):
         self._delim = " "
         self._array_delim = " "
+        self._user_array_delim = None
         self._bracket_arrays = False
 
         self._fobj = stdout
@@ -2193,19 +2194,22 @@ class ArrayWriter:
                 "bracket_arrays", self._bracket_arrays
             )
 
+        if "array_delim" in keys:
+            # like the other keywords, an explicit array_delim sticks
+            self._user_array_delim = keys["array_delim"]
+
         if self._type in ["latex", "latex-deluxe"]:
             self._delim = " & "
             self._array_delim = " "
         else:
-            if "array_delim" not in keys:
-                if self._bracket_arrays:
-                    # default to commas in arrays when we are bracketing
-                    self._array_delim = ","
-                else:
-                    # otherwise use the same as delim
-                    self._array_delim = self._delim
+            if self._user_array_delim is not None:
+                self._array_delim = self._user_array_delim
+            elif self._bracket_arrays:
+                # default to commas in arrays when we are bracketing
+                self._array_delim = ","
             else:
-                self._array_delim = keys["array_delim"]
+                # otherwise use the same as delim
+                self._array_delim = self._delim
 
     def open(self, **keys):
 
